@@ -96,7 +96,7 @@ SetFails(e) ==
 (* ---- C13: builders ------------------------------------------------------------ *)
 KindType == [can |-> << 1, 1 >>, canfd |-> << 1, 2 >>, lin |-> << 1, 3 >>, analog |-> << 1, 7 >>, eth |-> << 1, 8 >>,
              cm |-> << 3, 1 >>, if |-> << 3, 2 >>]
-DataClasses == {"can", "canfd", "lin", "eth", "analog"}
+DataClasses == {"can", "canfd", "lin", "eth", "analog", "tecmpLin"}
 Builders == DataClasses \cup {"cm", "if"}
 
 Blank(b, i) == [b EXCEPT ![i] = 0]
@@ -121,7 +121,8 @@ BuildFails(e) ==
         (* length / DLC bytes), inner structure consistent, strings NUL terminated and zero padded to even length,   *)
         (* id list zero padded to even length, DLC code for lengths that have one, and the same bytes as a build of  *)
         (* the same arguments on a fresh object with the same header                                                *)
-        owned == IF c \in {"can", "canfd"} THEN {15, 16} ELSE IF c = "lin" THEN {8} ELSE IF c = "eth" THEN {5, 6} ELSE {}
+        owned == IF c \in {"can", "canfd"} THEN {15, 16} ELSE IF c = "lin" THEN {8} ELSE IF c = "eth" THEN {5, 6}
+                 ELSE IF c = "tecmpLin" THEN {2} ELSE {}
         rawOK ==
             /\ Len(e.raw) >= size
             /\ \A i \in 1..size : i \notin owned => e.raw[i] = hdr[i]
@@ -141,7 +142,7 @@ BuildFails(e) ==
             /\ (Has(e, "freshraw") => e.raw = e.freshraw)
         v == e.views
         viewsOK ==
-            IF c \in {"can", "canfd", "lin", "eth"} THEN v.data = a.data /\ v.dataLength = Len(a.data)
+            IF c \in {"can", "canfd", "lin", "eth", "tecmpLin"} THEN v.data = a.data /\ v.dataLength = Len(a.data)
             ELSE IF c = "analog" THEN
                 LET ss == IF Get(c, hdr, FieldOf(c, "sampleDt")) = << 0, 0 >> THEN 2 ELSE 4 IN
                 v.samplesCount = Len(a.data) \div ss /\ v.data = SubSeq(a.data, 1, ss * (Len(a.data) \div ss))
